@@ -20,6 +20,7 @@ pub mod c14;
 pub mod c15;
 pub mod c16;
 pub mod objgen;
+pub mod pylayer;
 pub mod curvegen;
 pub mod fxgen;
 pub mod c17;
